@@ -62,4 +62,48 @@ theorem skel_Manager_Load_ok : skel_Manager_Load = ([
   "return m.Store.Load(req.Context(), key)",
   "m.Store.Load"] : List String) := rfl
 
+theorem skel_loadCookie_ok : skel_loadCookie = ([
+  "req.Cookie",
+  "if err == nil",
+  "return c, nil",
+  "for err == nil",
+  "req.Cookie",
+  "splitCookieName",
+  "if err == nil",
+  "if len(cookies) == 0",
+  "return nil, http.ErrNoCookie",
+  "return joinCookies(cookies, cookieName)",
+  "joinCookies"] : List String) := rfl
+
+theorem skel_SessionStore_makeSessionCookie_ok : skel_SessionStore_makeSessionCookie = ([
+  "if strValue != \"\"",
+  "encryption.SignedValue",
+  "if err != nil",
+  "return nil, err",
+  "s.makeCookie",
+  "if len(c.String()) > maxCookieLength",
+  "return splitCookie(c), nil",
+  "splitCookie",
+  "return []*http.Cookie{c}, nil"] : List String) := rfl
+
+theorem skel_SessionStore_clearCookiesExcept_ok : skel_SessionStore_clearCookiesExcept = ([
+  "req.Cookies",
+  "if ok",
+  "if isSessionCookieName(s.Cookie.Name, c.Name)",
+  "isSessionCookieName",
+  "s.makeCookie",
+  "http.SetCookie"] : List String) := rfl
+
+theorem skel_isSessionCookieName_ok : skel_isSessionCookieName = ([
+  "if candidate == name",
+  "return true",
+  "strings.LastIndex",
+  "if idx < 0",
+  "return false",
+  "strconv.Atoi",
+  "if err != nil || count < 0",
+  "return false",
+  "return candidate == splitCookieName(name, count)",
+  "splitCookieName"] : List String) := rfl
+
 end O2P.Expect.C10
